@@ -25,9 +25,9 @@ LOCAL_FINDINGS = os.path.join(CORPUS_DIR, 'known_findings_edif.json')
 
 BUDGET = {
     # (generated oracle cases, risky share, mechanism cases, bundled size limit in bytes of the zip)
-    ('C03', 'quick'): dict(cases=600, risky=0.10, mech=200, bundled=12000),
+    ('C03', 'quick'): dict(cases=900, risky=0.10, mech=200, bundled=12000),
     ('C03', 'thorough'): dict(cases=6000, risky=0.12, mech=3000, bundled=None),
-    ('C05', 'quick'): dict(cases=900, risky=0.08, mech=200, bundled=20000),
+    ('C05', 'quick'): dict(cases=1300, risky=0.08, mech=200, bundled=20000),
     ('C05', 'thorough'): dict(cases=8000, risky=0.10, mech=3000, bundled=None),
 }
 CALL_LIMIT = 20          # seconds per compose / parse call on generated input
@@ -532,6 +532,8 @@ def run(prop, tier, seed, replay):
 
     # ---- 1. known findings: replay their witnesses, they must still fail in the recorded way ----
     for k in known:
+        if k.get('tier') == 'thorough' and tier != 'thorough':
+            continue                      # witness is a large bundled file: replayed in the thorough tier only
         wpath = os.path.join(common.ROOT, k.get('witness', ''))
         if not k.get('witness') or not os.path.exists(wpath):
             notes.append('known finding %s has no witness file' % k['id'])
@@ -681,6 +683,12 @@ def run(prop, tier, seed, replay):
         except Exception as e:
             res = _res('reader-rejects-bundled-file', ['%s: %s' % (type(e).__name__, str(e)[:200])], 'unexplained')
         n_eval += 1
+        if prop == 'C05' and driver_ok:
+            # the file's own characters through the model tokenizer and the real one, token by token
+            tb_bad = em.check_tokens_of_file(ec.read_bundled(path), limit=60000)
+            mech_total += 1
+            mech_bad += tb_bad
+            n_disagree += len(tb_bad)
         bundled_done.append({'file': fn, 'zip_bytes': size, 'seconds': round(time.time() - tb, 2),
                              'outcome': 'holds' if res is None else res['signature']})
         distinct.add('bundled:' + fn)
